@@ -3,6 +3,8 @@ import TonicModel.Spec.RichError
 import TonicModel.Lemmas.RichError
 import TonicModel.Lemmas.RichErrorWire
 import TonicModel.Lemmas.SpecRichError
+import TonicModel.Model.RichErrorTrip
+import TonicModel.Props.C04
 /-
 C20 — rich error details round-trip through a status.  Property theorems only.
 
@@ -323,5 +325,129 @@ example : ∃ st, (some : Status Unit → Option (Status Unit)) (id (withVec pro
 example : checkVec prost (withVec prost 3 [0x6d] [.localizedMessage ⟨[0x65, 0x6e], [0xc3, 0xa9]⟩,
     .retryInfo ⟨some ⟨5, 7⟩⟩] ()).details
     = some [.localizedMessage ⟨[0x65, 0x6e], [0xc3, 0xa9]⟩, .retryInfo ⟨some ⟨5, 7⟩⟩] := by decide +kernel
+
+/-! ## the other ways through the header encoding (`x` cases)
+
+`RichError.trip` composes the header model of C04 (`Status.addHeader` / `Status.fromHeaderMap`, the tree as
+it stands): a fresh map, a block in use, the trailers-only response of `Status::into_http`, a peer
+that pads its base64, a proxy that writes the recovered status again. -/
+
+private theorem once_ok (h0 : HMap) (st : St) (hutf : Utf8.valid st.message = true)
+    (hm0 : HMap.getAll Status.GRPC_MESSAGE h0 = []) (hd0 : HMap.getAll Status.GRPC_STATUS_DETAILS h0 = []) :
+    ∃ st', once h0 st = some st' ∧ st'.code = st.code ∧ st'.message = st.message ∧ st'.details = st.details := by
+  obtain ⟨h, h1, h2, _⟩ := C04.C04_status_roundtrip st h0 hutf hm0 hd0
+  refine ⟨{ code := st.code, message := st.message, details := st.details, metadata := Status.stripStatus h },
+    ?_, rfl, rfl, rfl⟩
+  simp [once, h1, readBack, h2]
+
+private theorem padded_ok (st : St) (hutf : Utf8.valid st.message = true) :
+    ∃ st', trip .padded st = some st' ∧ st'.code = st.code ∧ st'.message = st.message ∧ st'.details = st.details := by
+  obtain ⟨n1, n2, n3, _, _, _⟩ := Status.names_ne
+  have hw := Status.addHeader_eq .fixed st []
+  have g := Status.getAll_wire st []
+  have cM : Status.isCustom Status.GRPC_MESSAGE = false := by decide
+  have cD : Status.isCustom Status.GRPC_STATUS_DETAILS = false := by decide
+  have gS : HMap.getAll Status.GRPC_STATUS (repad st (Status.wire .fixed st [])) = [st.code.headerValue] := by
+    unfold repad
+    split
+    · rw [g]; simp
+    · rw [HMap.getAll_insert_ne _ _ _ _ n2, g]; simp
+  have gM : HMap.getAll Status.GRPC_MESSAGE (repad st (Status.wire .fixed st [])) =
+      if st.message = [] then [] else [Pct.encode st.message] := by
+    have : HMap.getAll Status.GRPC_MESSAGE (Status.wire .fixed st []) =
+        if st.message = [] then [] else [Pct.encode st.message] := by
+      rw [g]
+      by_cases hm : st.message = [] <;> simp [n1.symm, n3, cM, hm, HMap.getAll_nil]
+    unfold repad
+    split
+    · exact this
+    · rw [HMap.getAll_insert_ne _ _ _ _ n3]; exact this
+  have gD : HMap.getAll Status.GRPC_STATUS_DETAILS (repad st (Status.wire .fixed st [])) =
+      if st.details = [] then [] else [B64.encode true st.details] := by
+    unfold repad
+    by_cases hd : st.details = []
+    · simp only [hd, if_true]
+      rw [g]; simp [n2.symm, n3.symm, cD, hd, HMap.getAll_nil]
+    · simp only [hd, if_false]
+      exact HMap.getAll_insert_self _ _ _
+  have hmsg : Status.decodeMessage (repad st (Status.wire .fixed st [])) = .ok st.message := by
+    unfold Status.decodeMessage HMap.get
+    rw [gM]
+    by_cases hm : st.message = []
+    · simp [hm]
+    · have hv : Utf8.validate st.message = none := by simpa [Utf8.valid] using hutf
+      simp [hm, Pct.decode_encode, hv]
+  have hcode : Status.Code.fromBytes st.code.headerValue = st.code := by cases st.code <;> decide
+  refine ⟨{ code := st.code, message := st.message, details := st.details,
+            metadata := Status.stripStatus (repad st (Status.wire .fixed st [])) }, ?_, rfl, rfl, rfl⟩
+  simp only [trip, hw, readBack]
+  unfold Status.fromHeaderMap Status.stripStatus
+  by_cases hd : st.details = []
+  · simp only [HMap.get, gS, gD, hd, if_true, List.head?_nil, List.head?_cons, hmsg, hcode]
+  · simp only [HMap.get, gS, gD, hd, if_false, List.head?_cons, B64.decode_encode, hmsg, hcode]
+
+/-- **Every way through the header encoding is invisible.** Whatever the status (any code, any
+UTF-8 message, any details bytes, any metadata — also metadata under `grpc-status`, `grpc-message`
+or `grpc-status-details-bin`): written into a fresh map, into any block in use that holds no message
+/ details header yet (`[content-type]`: `Status::into_http`), read by way of a peer that pads the
+base64 text, or written and read twice by a proxy — a status comes back and its code, message and
+details are the ones that went in. -/
+theorem C20_trip_invisible (t : Trip) (st : St) (hutf : Utf8.valid st.message = true) (ht : t.wf) :
+    ∃ st', trip t st = some st' ∧ st'.code = st.code ∧ st'.message = st.message ∧ st'.details = st.details := by
+  cases t with
+  | add h0 => exact once_ok h0 st hutf ht.1 ht.2
+  | padded => exact padded_ok st hutf
+  | twice =>
+    obtain ⟨s1, e1, c1, m1, d1⟩ := once_ok [] st hutf rfl rfl
+    obtain ⟨s2, e2, c2, m2, d2⟩ := once_ok [] s1 (by rw [m1]; exact hutf) rfl rfl
+    exact ⟨s2, by simp [trip, e1, e2], by rw [c2, c1], by rw [m2, m1], by rw [d2, d1]⟩
+
+example : (Trip.add contentTypeGrpc).wf := ⟨by decide, by decide⟩
+example : (Trip.add [(HMap.name "a", Ascii.ofString "pre"), (HMap.name "x-pre", Ascii.ofString "1")]).wf :=
+  ⟨by decide, by decide⟩
+
+private theorem code_num : ∀ c : Fin 17, (Status.Code.ofNum c.val).num = c.val := by decide
+
+/-- **The list form end to end, with the header encoding no longer a hypothesis.** Attach a list
+of details, encode with prost, go through the header model any of these ways, decode with prost,
+dispatch: the outer code and message are the ones given, `check_error_details_vec` and
+`get_error_details_vec` return the list that was attached (kinds, order, field values), and every
+getter the first detail of its kind.  (`Utf8.valid` and `Utf8Rust.valid` are the two models of
+`str::from_utf8` used by C04 and C20.) -/
+theorem C20_vec_roundtrip_through_headers (t : Trip) (ht : t.wf) (code : Nat) (msg : Bytes)
+    (ds : List ErrorDetail) (md : HMap)
+    (hcode : code ≤ 16) (hmsg : Utf8Rust.valid msg = true) (hmsg' : Utf8.valid msg = true)
+    (hwf : ∀ d ∈ ds, Spec.RichError.wfDetail d = true)
+    (hsize : (withVec prost code msg ds md).details.length < 18446744073709551616) :
+    ∃ st', trip t (toSt (withVec prost code msg ds md)) = some st' ∧ st'.code.num = code ∧ st'.message = msg ∧
+      checkVec prost st'.details = some ds ∧ getVec prost st'.details = ds ∧
+      ∀ k, getFirst prost k st'.details = Spec.RichError.firstOfKind k ds := by
+  obtain ⟨st', e, c, m, d⟩ := C20_trip_invisible t (toSt (withVec prost code msg ds md)) hmsg' ht
+  obtain ⟨s, hs, _, _, hv, hg⟩ := C20_wire_vec_roundtrip (M := HMap) id some (fun _ => rfl) code msg ds md hcode hmsg hwf hsize
+  cases hs
+  refine ⟨st', e, ?_, m, ?_, ?_, ?_⟩
+  · rw [c]; exact code_num ⟨code, by omega⟩
+  · rw [d]; exact hv
+  · rw [d]; exact hg
+  · intro k
+    obtain ⟨s, hs, hk⟩ := C20_wire_getters_first (M := HMap) id some (fun _ => rfl) code msg ds md k hcode hmsg hwf hsize
+    cases hs
+    rw [d]; exact hk
+
+/-- The set form likewise. -/
+theorem C20_set_roundtrip_through_headers (t : Trip) (ht : t.wf) (code : Nat) (msg : Bytes)
+    (s : ErrorDetails) (md : HMap)
+    (hcode : code ≤ 16) (hmsg : Utf8Rust.valid msg = true) (hmsg' : Utf8.valid msg = true)
+    (hwf : ∀ d ∈ s.toList, Spec.RichError.wfDetail d = true)
+    (hsize : (withSet prost code msg s md).details.length < 18446744073709551616) :
+    ∃ st', trip t (toSt (withSet prost code msg s md)) = some st' ∧ st'.code.num = code ∧ st'.message = msg ∧
+      checkSet prost st'.details = some s ∧ getSet prost st'.details = s := by
+  obtain ⟨st', e, c, m, d⟩ := C20_trip_invisible t (toSt (withSet prost code msg s md)) hmsg' ht
+  obtain ⟨r, hr, _, _, hv, hg⟩ := C20_wire_set_roundtrip (M := HMap) id some (fun _ => rfl) code msg s md hcode hmsg hwf hsize
+  cases hr
+  refine ⟨st', e, ?_, m, ?_, ?_⟩
+  · rw [c]; exact code_num ⟨code, by omega⟩
+  · rw [d]; exact hv
+  · rw [d]; exact hg
 
 end C20
